@@ -388,6 +388,8 @@ def contains(ex, container, item, node):
         if si != 'str':
             raise SymRaise(TypeError, ('in <string> requires string',), origin=ex.where(node))
         return SymVal('bool', z3.Contains(container.t, zi))
+    if isinstance(container, str) and isinstance(item, str):
+        return item in container
     if isinstance(container, str) and isinstance(item, SymVal) and item.sort == 'str':
         return SymVal('bool', z3.Contains(z3.StringVal(container), item.t))
     if isinstance(container, (list, tuple, set, frozenset, dict)) or type(container).__name__ in ('dict_keys',):
@@ -755,6 +757,14 @@ def call_external(ex, f, args, kwargs, node):
     key = (getattr(f, '__module__', None), getattr(f, '__qualname__', getattr(f, '__name__', None)))
     if key in ex.stubs:
         return ex.stubs[key](ex, args, kwargs, node)
+    if type(f).__name__ == 'method_descriptor' and getattr(f, '__objclass__', None) in (str, list, dict) and args:
+        # unbound builtin method, e.g. map(str.lower, parts)
+        recv = args[0]
+        if isinstance(recv, SymVal):
+            return symval_method(ex, recv, f.__name__, list(args[1:]), kwargs, node)
+        if isinstance(recv, f.__objclass__):
+            return concrete_method(ex, recv, f.__name__, list(args[1:]), kwargs, node)
+        raise SymRaise(TypeError, (f'descriptor {f.__name__} requires a {f.__objclass__.__name__}',), origin=ex.where(node))
     if f is isinstance:
         return ex.isinstance_(args[0], args[1])
     if f is hasattr:
